@@ -78,4 +78,14 @@ def main(argv=None):
 
 
 if __name__ == "__main__":
-    sys.exit(main())
+    try:
+        rc = main()
+    except SystemExit:
+        raise
+    except BaseException:  # noqa - a crash of the machinery is not a verdict about the library: exit 2, never 1
+        import traceback
+
+        traceback.print_exc()
+        print("INFRASTRUCTURE: the check itself crashed (see traceback on stderr)")
+        rc = 2
+    sys.exit(rc)
